@@ -187,36 +187,41 @@ impl ToZinc for DateTime {
 
 impl ToZinc for Str {
     fn to_zinc<W: std::io::Write>(&self, writer: &mut W) -> Result<()> {
-        writer.write_all(b"\"")?;
-        let mut buf = [0; 4];
-        for c in self.value.chars() {
-            if c < ' ' || c == '"' || c == '\\' {
-                match c {
-                    '"' => writer.write_all(br#"\""#)?,
-                    '\t' => writer.write_all(br"\t")?,
-                    '\r' => writer.write_all(br"\r")?,
-                    '\n' => writer.write_all(br"\n")?,
-                    '\\' => writer.write_all(br"\\")?,
-                    _ => writer.write_fmt(format_args!("\\u{:04x}", c as u32))?,
-                }
-            } else if c == '$' {
-                writer.write_all(br"\$")?
-            } else {
-                let chunk = c.encode_utf8(&mut buf);
-                writer.write_fmt(format_args!("{}", chunk))?
-            }
-        }
-        writer.write_all(b"\"")?;
-        Ok(())
+        write_quoted_str(writer, &self.value)
     }
+}
+
+/// Writes `value` as a quoted Zinc string, escaping the characters the grammar requires
+fn write_quoted_str<W: std::io::Write>(writer: &mut W, value: &str) -> Result<()> {
+    writer.write_all(b"\"")?;
+    let mut buf = [0; 4];
+    for c in value.chars() {
+        if c < ' ' || c == '"' || c == '\\' {
+            match c {
+                '"' => writer.write_all(br#"\""#)?,
+                '\t' => writer.write_all(br"\t")?,
+                '\r' => writer.write_all(br"\r")?,
+                '\n' => writer.write_all(br"\n")?,
+                '\\' => writer.write_all(br"\\")?,
+                _ => writer.write_fmt(format_args!("\\u{:04x}", c as u32))?,
+            }
+        } else if c == '$' {
+            writer.write_all(br"\$")?
+        } else {
+            let chunk = c.encode_utf8(&mut buf);
+            writer.write_fmt(format_args!("{}", chunk))?
+        }
+    }
+    writer.write_all(b"\"")?;
+    Ok(())
 }
 
 impl ToZinc for Ref {
     fn to_zinc<W: std::io::Write>(&self, writer: &mut W) -> Result<()> {
+        writer.write_fmt(format_args!("@{}", self.value))?;
         if let Some(dis) = &self.dis {
-            writer.write_fmt(format_args!("@{} \"{}\"", self.value, dis))?
-        } else {
-            writer.write_fmt(format_args!("@{}", self.value))?
+            writer.write_all(b" ")?;
+            write_quoted_str(writer, dis)?;
         }
         Ok(())
     }
@@ -256,12 +261,9 @@ impl ToZinc for XStr {
             .next()
             .map(|c| c.to_uppercase().to_string())
             .unwrap_or_default();
-        writer.write_fmt(format_args!(
-            "{}{}(\"{}\")",
-            initial,
-            type_chars.as_str(),
-            self.value
-        ))?;
+        writer.write_fmt(format_args!("{}{}(", initial, type_chars.as_str()))?;
+        write_quoted_str(writer, &self.value)?;
+        writer.write_all(b")")?;
         Ok(())
     }
 }
